@@ -9,7 +9,7 @@ set_option linter.unusedSimpArgs false
 namespace Sonic.Model.WsAsyncObs
 open Sonic.Model.WsAsync
 open Sonic.Spec.WsStream (Bytes StreamState replyCode closeCodeOf u16 isViolation controlOp)
-open Sonic.Spec.WsAsync (Cb Ev Kind Want WireFrame findCb setCb enterPush failW addW entered deliver replyFor)
+open Sonic.Spec.WsAsync (Cb Ev Kind Want WireFrame findCb setCb enterPush failW addW entered deliver replyFor pattern)
 
 theorem mrun_single {m m' : MS} {e : Ev} (h : mstep m e = .ok m') : mrun m [e] = .ok m' := by
   show Sonic.Spec.WsAsync.run m [e] = _
@@ -62,7 +62,7 @@ theorem coup_pop {max : Nat} {s : St} {o : Ob} {m : MS} {x : List CFrame} {t : T
   have hp1 : ∀ l, pendW s o l = [] :=
     fun l => pendW_of_not_special o l (fun t' r e => by rw [hst] at e; cases e; exact hsp0)
   have hcur : o.cur = none := cur_of_not_special h.win (fun t' r e => by rw [hst] at e; cases e; exact hsp0)
-  refine ⟨hmax.trans h.max, ?_, ?_, hstk, ?_, ?_, ?_, Or.inl hlast, h.subF, h.subM, ?_, h.inb, ?_, h.heldOk, ?_, ?_,
+  refine ⟨hmax.trans h.max, ?_, ?_, hstk, ?_, ?_, ?_, Or.inl hlast, h.subF, h.subM, ?_, (fun hh => h.rep (hhl ▸ hh)), h.inb, ?_, h.heldOk, ?_, ?_,
     h.rdr1, ?_, h.rdr3, h.rdr4, h.rdr5, h.rdCan⟩
   · intro c hc
     obtain ⟨c0, hc0, e1, e2, e3⟩ := hled1 c hc
@@ -203,7 +203,7 @@ theorem sim_ret {s s' : St} {o : Ob} {m : MS} (h : Coup max s o m [])
 theorem sim_peer {s : St} {o : Ob} {m : MS} {g : CFrame} (h : Coup max s o m []) :
     ∃ m', mrun m [.peer g] = .ok m' ∧ Coup max s { o with net := o.net ++ [g] } m' [] := by
   refine ⟨{ m with inq := m.inq ++ [g] }, mrun_single rfl, ?_⟩
-  refine ⟨h.max, h.ledMem, h.ledAll, h.stk, h.spec, h.errs, h.hl, h.last, h.subF, h.subM, h.exp, h.inb, ?_, h.heldOk, h.win,
+  refine ⟨h.max, h.ledMem, h.ledAll, h.stk, h.spec, h.errs, h.hl, h.last, h.subF, h.subM, h.exp, h.rep, h.inb, ?_, h.heldOk, h.win,
     h.chain, h.rdr1, h.rdr2, h.rdr3, h.rdr4, h.rdr5, h.rdCan⟩
   intro hsy hws
   obtain ⟨h1, h2⟩ := h.rdq hsy hws
@@ -215,7 +215,8 @@ theorem sim_peer {s : St} {o : Ob} {m : MS} {g : CFrame} (h : Coup max s o m [])
 theorem sim_peerEof {s : St} {o : Ob} {m : MS} (h : Coup max s o m []) :
     ∃ m', mrun m [.peerEof] = .ok m' ∧ Coup max s o m' [] := ⟨m, mrun_single rfl, h⟩
 
-theorem sim_drain {s : St} {o : Ob} {m : MS} {k : Nat} (h : Coup max s o m []) (hst : s.stack = []) :
+theorem sim_drain {s : St} {o : Ob} {m : MS} {k : Nat} (hI : Inv s) (h : Coup max s o m []) (hst : s.stack = [])
+    (hk : o.reported + k ≤ s.wire.length) :
     ∃ m', mrun m [.wire (((o.sub.drop o.reported).take k).map (·.wf))] = .ok m' ∧
       Coup max s { o with reported := o.reported + k } m' [] := by
   have hp : pendW s o m.last = [] := by simp [pendW, hst]
@@ -224,9 +225,10 @@ theorem sim_drain {s : St} {o : Ob} {m : MS} {k : Nat} (h : Coup max s o m []) (
     refine ⟨m, mrun_single ?_, ?_⟩
     · show Sonic.Spec.WsAsync.step m (.wire _) = _
       simp [Sonic.Spec.WsAsync.step, hh]
-    · refine ⟨h.max, h.ledMem, h.ledAll, h.stk, h.spec, h.errs, h.hl, h.last, h.subF, h.subM, ?_, h.inb, h.rdq, h.heldOk,
+    · refine ⟨h.max, h.ledMem, h.ledAll, h.stk, h.spec, h.errs, h.hl, h.last, h.subF, h.subM, ?_, ?_, h.inb, h.rdq, h.heldOk,
         h.win, h.chain, h.rdr1, h.rdr2, h.rdr3, h.rdr4, h.rdr5, h.rdCan⟩
-      intro h1; rw [hh] at h1; cases h1
+      · intro h1; rw [hh] at h1; cases h1
+      · intro h1; rw [hh] at h1; cases h1
   | true =>
     have he := h.exp hh
     rw [hp, List.append_nil] at he
@@ -248,11 +250,18 @@ theorem sim_drain {s : St} {o : Ob} {m : MS} {k : Nat} (h : Coup max s o m []) (
       simp only [Sonic.Spec.WsAsync.step, hh, Bool.not_true, Bool.false_eq_true, if_false]
       rw [hw, hsplit, hmw]
       rfl
-    · refine ⟨h.max, h.ledMem, h.ledAll, h.stk, h.spec, h.errs, h.hl, h.last, h.subF, h.subM, ?_, h.inb, h.rdq, h.heldOk,
+    · refine ⟨h.max, h.ledMem, h.ledAll, h.stk, h.spec, h.errs, h.hl, h.last, h.subF, h.subM, ?_, ?_, h.inb, h.rdq, h.heldOk,
         h.win, h.chain, h.rdr1, h.rdr2, h.rdr3, h.rdr4, h.rdr5, h.rdCan⟩
-      intro _
-      show _ ++ pendW s _ m.last = _
-      rw [show pendW s { o with reported := o.reported + k } m.last = [] from by simp [pendW, hst], List.append_nil]
+      · intro _
+        show _ ++ pendW s _ m.last = _
+        rw [show pendW s { o with reported := o.reported + k } m.last = [] from by simp [pendW, hst], List.append_nil]
+      · intro _
+        show o.reported + k ≤ o.sub.length
+        have hw := hI.wire.frames (h.hl hh)
+        have hl : o.sub.length = s.submitted.length := by rw [← h.subF, List.length_map]
+        rw [hl, ← hw]
+        simp only [List.length_append]
+        omega
 
 theorem log_of_quiescent {s : St} (hI : Inv s) (hq : quiescent s) : ∀ c ∈ s.started, c ∈ s.log := by
   intro c hc
@@ -298,7 +307,7 @@ theorem coup_same {s s1 : St} {o : Ob} {m : MS} {x : List CFrame} (hb : Bool) (h
     (hlocs : ∀ p ∈ locs s1, p ∈ locs s) (hhl : hb = true → m.healthy = true ∧ s1.healthy = true)
     (herr : m.healthy = false → hb = false) : Coup max s1 o { m with healthy := hb } x := by
   have hpw : ∀ l, pendW s1 o l = pendW s o l := fun l => by simp only [pendW, e8, e1]
-  refine ⟨h.max, ?_, ?_, ?_, ?_, ?_, ?_, ?_, ?_, h.subM, ?_, ?_, ?_, h.heldOk, ?_, ?_, ?_, ?_, h.rdr3, h.rdr4, ?_, ?_⟩
+  refine ⟨h.max, ?_, ?_, ?_, ?_, ?_, ?_, ?_, ?_, h.subM, ?_, (fun hh => h.rep (hhl hh).1), ?_, ?_, h.heldOk, ?_, ?_, ?_, ?_, h.rdr3, h.rdr4, ?_, ?_⟩
   · rw [e3, e4]; exact h.ledMem
   · rw [e3]; exact h.ledAll
   · rw [e8]; exact h.stk
@@ -421,7 +430,7 @@ theorem coup_rinvoke {s s' : St} {o : Ob} {m : MS} (hb : Bool) (c' : Option CFra
   have hkc := h.chain _ hloc
   obtain ⟨b, hrdr, hb1, hb2⟩ := h.rdr2 _ hloc (by rcases hlk with rfl | rfl <;> rfl)
   have hk3 := h.rdr3 cb b hrdr
-  refine ⟨h.max, ?_, ?_, ?_, ?_, ?_, ?_, ?_, ?_, h.subM, ?_, ?_, ?_, h.heldOk, ?_, ?_, ?_, ?_, h.rdr3, h.rdr4, ?_, ?_⟩
+  refine ⟨h.max, ?_, ?_, ?_, ?_, ?_, ?_, ?_, ?_, h.subM, ?_, (fun hh => h.rep (hhl hh).1), ?_, ?_, h.heldOk, ?_, ?_, ?_, ?_, h.rdr3, h.rdr4, ?_, ?_⟩
   · rw [e3, e4]; exact h.ledMem
   · rw [e3]; exact h.ledAll
   · rw [hstack', List.filterMap_cons]; exact hstk
@@ -786,8 +795,9 @@ theorem sim_enter {s s' : St} {o : Ob} {m : MS} {cb : CbId} {r : Res} (hI : Inv 
           rw [hckind]; simp [enterPush, failW, hkf]
         obtain ⟨hl1, hl2⟩ := hled m (enterPush c.kind m.last (stOf s.ws) (resOf r) none) rfl
         have hns' := enter_stack_ns (cb := cb) (prog cb) hrestns
-        refine ⟨h.max, hl1, hl2, ?_, fun t ht => hns' t (List.mem_of_mem_tail ht), ?_, ?_, Or.inl rfl, h.subF, h.subM, ?_, h.inb,
-          h.rdq, h.heldOk, window_of_not_special (head_of_ns hns') hcur, fun p hp => h.chain p (enter_locs _ _ _ hst hp),
+        refine ⟨h.max, hl1, hl2, ?_, fun t ht => hns' t (List.mem_of_mem_tail ht), ?_, ?_, Or.inl rfl, h.subF, h.subM, ?_,
+          (fun hh => h.rep (by have : (m.healthy && resOf r != Sonic.Spec.WsAsync.Res.err) = true := hh; simp only [Bool.and_eq_true] at this; exact this.1)),
+          h.inb, h.rdq, h.heldOk, window_of_not_special (head_of_ns hns') hcur, fun p hp => h.chain p (enter_locs _ _ _ hst hp),
           h.rdr1, fun p hp => h.rdr2 p (enter_locs _ _ _ hst hp), h.rdr3, h.rdr4, h.rdr5, h.rdCan⟩
         · show (Sonic.Spec.WsAsync.Frame.handler cb :: m.stack).map shapeF = _
           rw [enter_stack_shape, List.map_cons, hstk]; rfl
@@ -832,6 +842,7 @@ theorem sim_enter {s s' : St} {o : Ob} {m : MS} {cb : CbId} {r : Res} (hI : Inv 
         obtain ⟨hl1, hl2⟩ := hled s1 (enterPush c.kind s1.last (stOf s.ws) (resOf r) (if kindOf o cb == .read then o.cur else none)) e2
         have hns' := enter_stack_ns (cb := cb) (prog cb) hrestns
         refine ⟨e1.trans h.max, hl1, hl2, ?_, fun t ht => hns' t (List.mem_of_mem_tail ht), ?_, ?_, Or.inl rfl, h.subF, h.subM, ?_,
+          (fun hh => h.rep (by have : (s1.healthy && resOf r != Sonic.Spec.WsAsync.Res.err) = true := hh; rw [e6] at this; simp only [Bool.and_eq_true] at this; exact this.1)),
           h.inb, ?_, (fun g hg => by cases hg), window_of_not_special (head_of_ns hns') rfl,
           fun p hp => h.chain p (enter_locs _ _ _ hst hp), rfl, ?_, (fun cb b e => by cases e), (fun _ => ⟨rfl, rfl⟩), (fun cb b e => by cases e), h.rdCan⟩
         · show (Sonic.Spec.WsAsync.Frame.handler cb :: s1.stack).map shapeF = _
@@ -925,7 +936,7 @@ theorem sim_ctl {s s' : St} {o : Ob} {m : MS} (h : Coup max s o m []) (hs : step
       simp only [Sonic.Spec.WsAsync.step, hd, bind, Except.bind, pure, Except.pure, Sonic.Spec.WsAsync.pushReply_eq]
     · have hpw : pendW s o m.last = (replyFor m.last { fin := true, rsv := 0, op := g.op, masked := false, payload := g.payload }).toList := by
         simp only [pendW, hst, hgd]
-      refine ⟨e1.trans h.max, ?_, ?_, ?_, ?_, ?_, ?_, Or.inl rfl, h.subF, h.subM, ?_, h.inb, ?_, (fun g' hg' => by cases hg'),
+      refine ⟨e1.trans h.max, ?_, ?_, ?_, ?_, ?_, ?_, Or.inl rfl, h.subF, h.subM, ?_, (fun hh => h.rep (e6 ▸ hh)), h.inb, ?_, (fun g' hg' => by cases hg'),
         window_of_not_special hns rfl, fun p hp => h.chain p (locs_pop hst hp), h.rdr1, fun p hp => h.rdr2 p (locs_pop hst hp),
         h.rdr3, ?_, h.rdr5, h.rdCan⟩
       · show ∀ c ∈ s1.cbs, _
@@ -1001,7 +1012,7 @@ theorem coup_start {s0 : St} {o : Ob} {m : MS} {cb : CbId} (k : Kind) (hI : Inv 
   have hcur : o.cur = none := cur_of_not_special h.win (head_of_ns hns)
   have hp0 : pendW s0 o m.last = [] := pendW_of_not_special o _ (head_of_ns hns)
   refine ⟨by simp [Sonic.Spec.WsAsync.start, hnone, started], ?_⟩
-  refine ⟨h.max, ?_, ?_, ?_, hns, ?_, h.hl, Or.inl hlast, h.subF, h.subM, ?_, h.inb, h.rdq, h.heldOk, hcur, ?_, ?_, ?_, ?_, ?_,
+  refine ⟨h.max, ?_, ?_, ?_, hns, ?_, h.hl, Or.inl hlast, h.subF, h.subM, ?_, h.rep, h.inb, h.rdq, h.heldOk, hcur, ?_, ?_, ?_, ?_, ?_,
     ?_, h.rdCan⟩
   · intro c hc
     rcases Sonic.Spec.WsAsync.mem_setCb.1 hc with rfl | ⟨h1, h2⟩
@@ -1082,5 +1093,388 @@ theorem coup_start {s0 : St} {o : Ob} {m : MS} {cb : CbId} (k : Kind) (hI : Inv 
     | false =>
       simp only [hk, Bool.false_eq_true, if_false] at hb
       exact List.mem_append_left _ (h.rdr5 cb1 b hb)
+
+theorem ret_stack_ns {s1 : St} {o : Ob} {m : MS} (h : Coup max s1 o m []) {rest : List Task} (hst : s1.stack = .ret :: rest) :
+    ∀ t ∈ s1.stack, special t = false := all_not_special h hst rfl
+
+/-- A write-side call that is refused (or whose message is too big) completes inside the call. -/
+theorem coup_inline {s1 : St} {o : Ob} {m : MS} {cb : CbId} {r : Res} {rest : List Task} (h : Coup max s1 o m [])
+    (hst : s1.stack = .ret :: rest) (hr : r = .cancelled ∨ r = .eof ∨ r = .tooBig)
+    (hk : (kindOf o cb).isRead = false) (hret : ∃ c, findCb m cb = some c ∧ c.returned = false)
+    (hla : r = .cancelled ∨ r = .eof → m.last ≠ .active) (hlast : m.last = stOf s1.ws) :
+    Coup max (push s1 [.invoke cb r false]) o m [] := by
+  have hns := ret_stack_ns h hst
+  have hcur : o.cur = none := cur_of_not_special h.win (head_of_ns hns)
+  have hp0 : pendW s1 o m.last = [] := pendW_of_not_special o _ (head_of_ns hns)
+  refine ⟨h.max, h.ledMem, h.ledAll, ?_, hns, ?_, h.hl, Or.inl hlast, h.subF, h.subM, ?_, h.rep, h.inb, h.rdq, h.heldOk, ?_, ?_,
+    h.rdr1, ?_, h.rdr3, h.rdr4, h.rdr5, h.rdCan⟩
+  · show m.stack.map shapeF = (Task.invoke cb r false :: s1.stack).filterMap shapeT
+    rw [List.filterMap_cons]; exact h.stk
+  · intro cb1 hc1
+    rcases List.mem_cons.1 hc1 with e | h1
+    · cases e; rcases hr with h2 | h2 | h2 <;> cases h2
+    · exact h.errs cb1 h1
+  · intro hh
+    have := h.exp hh
+    rw [hp0] at this
+    show m.expect ++ pendW _ _ m.last = _
+    rw [show pendW (push s1 [Task.invoke cb r false]) o m.last = [] from by simp [pendW, push]]
+    exact this
+  · show Window (push s1 [Task.invoke cb r false]) o m
+    unfold Window
+    simp only [push, List.cons_append, List.nil_append]
+    exact ⟨hcur, by rcases hr with h2 | h2 | h2 <;> rw [h2] <;> simp, fun _ => hret, hla⟩
+  · intro p hp
+    simp only [locs, push, wrK, rdK, List.cons_append, List.nil_append, List.flatMap_cons, taskK, Bool.false_eq_true, if_false,
+      List.mem_append, List.mem_cons, List.not_mem_nil, or_false] at hp
+    rcases hp with ((h1 | h1) | h1) | h1 | h1
+    · exact h.chain p (by simp only [locs, List.mem_append]; mem_or)
+    · exact h.chain p (by simp only [locs, wrK, List.mem_append]; mem_or)
+    · exact h.chain p (by simp only [locs, rdK, List.mem_append]; mem_or)
+    · rw [h1]; exact hk
+    · exact h.chain p (by simp only [locs, List.mem_append]; mem_or)
+  · intro p hp hrp
+    simp only [locs, push, wrK, rdK, List.cons_append, List.nil_append, List.flatMap_cons, taskK, Bool.false_eq_true, if_false,
+      List.mem_append, List.mem_cons, List.not_mem_nil, or_false] at hp
+    rcases hp with ((h1 | h1) | h1) | h1 | h1
+    · exact h.rdr2 p (by simp only [locs, List.mem_append]; mem_or) hrp
+    · exact h.rdr2 p (by simp only [locs, wrK, List.mem_append]; mem_or) hrp
+    · exact h.rdr2 p (by simp only [locs, rdK, List.mem_append]; mem_or) hrp
+    · rw [h1] at hrp; cases hrp
+    · exact h.rdr2 p (by simp only [locs, List.mem_append]; mem_or) hrp
+
+/-- `prepareWrite` inside a call: the frame is queued and the monitor notes the obligation at the same event. -/
+theorem coup_prepare {s1 : St} {o : Ob} {m : MS} {rest : List Task} (ws' : WsState) (y : Sub) (h : Coup max s1 o m [])
+    (hst : s1.stack = .ret :: rest) (hws : ws' = s1.ws ∨ (s1.ws = .active ∧ ws' = .closedByUs))
+    (hm : y.want.matches y.wf = true) :
+    Coup max (prepare { s1 with ws := ws' } y.frame) { o with sub := o.sub ++ [y] }
+      { m with expect := m.expect ++ [y.want] } [] := by
+  have hns := ret_stack_ns h hst
+  have hcur : o.cur = none := cur_of_not_special h.win (head_of_ns hns)
+  have hp0 : pendW s1 o m.last = [] := pendW_of_not_special o _ (head_of_ns hns)
+  have hne : ws' ≠ .terminated → s1.ws ≠ .terminated := by
+    rcases hws with h1 | ⟨h1, _⟩
+    · rw [h1]; exact fun x => x
+    · rw [h1]; intro _ e; cases e
+  refine ⟨h.max, h.ledMem, h.ledAll, h.stk, h.spec, h.errs, h.hl, ?_, ?_, ?_, ?_, ?_, h.inb, ?_, h.heldOk, ?_, ?_,
+    h.rdr1, ?_, h.rdr3, h.rdr4, h.rdr5, ?_⟩
+  · right; show windowTop s1.stack = true; rw [hst]; rfl
+  · show (o.sub ++ [y]).map (·.frame) = s1.submitted ++ [y.frame]
+    rw [List.map_append, h.subF]; rfl
+  · intro z hz
+    rcases List.mem_append.1 hz with h1 | h1
+    · exact h.subM z h1
+    · rw [List.mem_singleton.1 h1]; exact hm
+  · intro hh
+    have he := h.exp hh
+    have hr := h.rep hh
+    rw [hp0, List.append_nil] at he
+    show (m.expect ++ [y.want]) ++ pendW _ _ m.last = ((o.sub ++ [y]).drop o.reported).map (·.want)
+    rw [show pendW (prepare { s1 with ws := ws' } y.frame) { o with sub := o.sub ++ [y] } m.last = [] from by
+      simp [pendW, prepare, hst], List.append_nil, List.drop_append_of_le_length hr, List.map_append, he]
+    rfl
+  · intro hh
+    show o.reported ≤ (o.sub ++ [y]).length
+    have := h.rep hh
+    simp only [List.length_append]; omega
+  · intro hsy hn; exact h.rdq hsy (hne hn)
+  · show Window (prepare { s1 with ws := ws' } y.frame) _ _
+    unfold Window
+    simp only [prepare, hst]
+    exact hcur
+  · intro p hp; exact h.chain p hp
+  · intro p hp; exact h.rdr2 p hp
+  · intro hrd
+    have := h.rdCan hrd
+    rcases hws with h1 | ⟨_, h1⟩
+    · show ws'.canRead = true; rw [h1]; exact this
+    · show ws'.canRead = true; rw [h1]; rfl
+
+theorem stOf_active {ws : WsState} : stOf ws = .active ↔ ws = .active := by cases ws <;> simp [stOf]
+
+theorem matches_exact (fin : Bool) (op : Nat) (p : Bytes) : (Want.exact fin op p).matches (wfOf fin op p) = true := by
+  simp [Want.matches, wfOf]
+
+theorem matches_close (c : Nat) (rest : Bytes) (h : rest.length ≤ 123) :
+    (Want.closeCode c).matches (wfOf true 8 (u16 c ++ rest)) = true := by
+  simp [Want.matches, wfOf, u16, List.take_take]
+  omega
+
+theorem findCb_started (m : MS) (cb : CbId) (k : Kind) :
+    findCb (started m cb k) cb = some { id := cb, kind := k } := by
+  simp [findCb, started, setCb]
+
+/-- the observer after a call has been registered and its frame (if any) queued -/
+def obCall (o : Ob) (c : Call) (fs : List OutFrame) : Ob :=
+  { o with sub := o.sub ++ fs.map (conc (some c) none),
+           kinds := (match c.reg with | some p => p :: o.kinds | none => o.kinds),
+           reader := (match c with
+             | .read cb => some (cb, false)
+             | .readMsg cb _ => some (cb, true)
+             | _ => o.reader) }
+
+/-- a write-side call on a stream that accepts it: register, queue the frame, flush -/
+theorem begin_submit {s0 : St} {o : Ob} {m : MS} {cb : CbId} (k : Kind) (ws' : WsState) (y : Sub) (hI : Inv s0)
+    (h : Coup max s0 o m []) (hns : ∀ t ∈ s0.stack, special t = false) (hlast : m.last = stOf s0.ws)
+    (hfresh : cb ∉ s0.started) (hk : k.isRead = false)
+    (hws : ws' = s0.ws ∨ (s0.ws = .active ∧ ws' = .closedByUs)) (hm : y.want.matches y.wf = true) :
+    Coup max (asyncFlush true (prepare { s0 with stack := .ret :: s0.stack, started := s0.started ++ [cb], ws := ws' } y.frame)
+        (.user cb))
+      { o with sub := o.sub ++ [y], kinds := (cb, k) :: o.kinds }
+      { (started m cb k) with expect := m.expect ++ [y.want] } [] := by
+  obtain ⟨_, h1⟩ := coup_start k hI h hns hlast hfresh (fun e => by rw [hk] at e; cases e)
+  simp only [hk, Bool.false_eq_true, if_false] at h1
+  have h2 := coup_prepare ws' y h1 rfl hws hm
+  refine coup_fl (s1 := _) h2 (asyncFlush_fl _ (.user cb)) ?_ (Or.inr (asyncFlush_nopush _ _ (by simp [prepare]))) (fun e => by cases e) ?_
+  · intro t ht
+    rcases List.mem_cons.1 ht with rfl | h3
+    · rfl
+    · exact hns t h3
+  · intro p hp
+    simp only [contK, List.mem_singleton] at hp
+    subst hp
+    refine ⟨?_, fun e => by cases e⟩
+    show (kindOf _ cb).isRead = false
+    rw [show kindOf { o with sub := o.sub ++ [y], kinds := (cb, k) :: o.kinds } cb = k from by simp [kindOf, List.lookup]]
+    exact hk
+
+/-- a write-side call that completes inside the call with a refusal -/
+theorem begin_refuse {s0 : St} {o : Ob} {m : MS} {cb : CbId} (k : Kind) (r : Res) (hI : Inv s0)
+    (h : Coup max s0 o m []) (hns : ∀ t ∈ s0.stack, special t = false) (hlast : m.last = stOf s0.ws)
+    (hfresh : cb ∉ s0.started) (hk : k.isRead = false) (hr : r = .cancelled ∨ r = .eof ∨ r = .tooBig)
+    (hla : r = .cancelled ∨ r = .eof → s0.ws ≠ .active) :
+    Coup max (push { s0 with stack := .ret :: s0.stack, started := s0.started ++ [cb] } [.invoke cb r false])
+      { o with kinds := (cb, k) :: o.kinds } (started m cb k) [] := by
+  obtain ⟨_, h1⟩ := coup_start k hI h hns hlast hfresh (fun e => by rw [hk] at e; cases e)
+  simp only [hk, Bool.false_eq_true, if_false] at h1
+  refine coup_inline h1 rfl hr ?_ ⟨_, findCb_started m cb k, rfl⟩ ?_ hlast
+  · rw [show kindOf { o with kinds := (cb, k) :: o.kinds } cb = k from by simp [kindOf, List.lookup]]
+    exact hk
+  · intro h3 e
+    exact hla h3 (stOf_active.1 (hlast ▸ e))
+
+/-- a call that only flushes (AsyncFlush, and the flush before a read) -/
+theorem begin_flush {s0 : St} {o : Ob} {m : MS} {cb : CbId} (k : Kind) (kc : Cont) (hI : Inv s0)
+    (h : Coup max s0 o m []) (hns : ∀ t ∈ s0.stack, special t = false) (hlast : m.last = stOf s0.ws)
+    (hfresh : cb ∉ s0.started) (hrb : k.isRead = true → s0.readBusy = false)
+    (hkc : contK kc = [(cb, if k == .read then .f else if k == .readMsg then .m else .w)]) :
+    Coup max
+      (asyncFlush true { s0 with stack := .ret :: s0.stack, started := s0.started ++ [cb], readBusy := if k.isRead then true else s0.readBusy } kc)
+      { o with kinds := (cb, k) :: o.kinds, reader := if k.isRead then some (cb, k == .readMsg) else o.reader }
+      (started m cb k) [] := by
+  obtain ⟨_, h1⟩ := coup_start k hI h hns hlast hfresh hrb
+  refine coup_fl (s1 := _) h1 (asyncFlush_fl _ kc) ?_ (Or.inl hlast) (fun e => by cases e) ?_
+  · intro t ht
+    rcases List.mem_cons.1 ht with rfl | h3
+    · rfl
+    · exact hns t h3
+  · intro p hp
+    rw [hkc, List.mem_singleton] at hp
+    subst hp
+    simp only []
+    rw [kindOf_cons_self]
+    cases k <;> simp [compat, Kind.isRead, LK.isRd]
+
+theorem obCall_nil (o : Ob) : obCall o .poll [] = o := by
+  simp [obCall, Call.reg]
+
+theorem obCall_nil' (o : Ob) (c : Call) : obCall o c [] =
+    { o with kinds := (match c.reg with | some p => p :: o.kinds | none => o.kinds),
+             reader := (match c with
+               | .read cb => some (cb, false)
+               | .readMsg cb _ => some (cb, true)
+               | _ => o.reader) } := by
+  simp [obCall]
+
+theorem drop_self_append {α : Type} (l fs : List α) : (l ++ fs).drop l.length = fs := by
+  simp
+
+theorem sim_begin {s0 : St} {o : Ob} {m : MS} {c : Call} (hI : Inv s0) (h : Coup max s0 o m [])
+    (hns : ∀ t ∈ s0.stack, special t = false) (hlast : m.last = stOf s0.ws) (hok : callOk s0 (c.action max) = true) :
+    ∃ m', mrun m [c.ev] = .ok m' ∧
+      Coup max (beginCall true s0 (c.action max))
+        (obCall o c ((beginCall true s0 (c.action max)).submitted.drop s0.submitted.length)) m' [] := by
+  have hcur : o.cur = none := cur_of_not_special h.win (head_of_ns hns)
+  have hp0 : pendW s0 o m.last = [] := pendW_of_not_special o _ (head_of_ns hns)
+  cases c with
+  | poll =>
+    refine ⟨{ m with stack := .call none :: m.stack }, mrun_single rfl, ?_⟩
+    simp only [Call.action, beginCall, List.drop_length, obCall_nil]
+    refine ⟨h.max, h.ledMem, h.ledAll, ?_, hns, ?_, h.hl, Or.inl hlast, h.subF, h.subM, ?_, h.rep, h.inb, h.rdq, h.heldOk, hcur,
+      ?_, h.rdr1, ?_, h.rdr3, h.rdr4, h.rdr5, h.rdCan⟩
+    · show (Sonic.Spec.WsAsync.Frame.call none :: m.stack).map shapeF = (Task.pollRet :: s0.stack).filterMap shapeT
+      rw [List.map_cons, List.filterMap_cons, h.stk]; rfl
+    · intro cb1 hc1
+      rcases List.mem_cons.1 hc1 with e | h1
+      · cases e
+      · exact h.errs cb1 h1
+    · intro hh
+      have := h.exp hh
+      rw [hp0] at this
+      show m.expect ++ pendW _ _ m.last = _
+      rw [show pendW _ _ m.last = [] from by simp [pendW]]
+      exact this
+    · intro p hp
+      exact h.chain p (by simp only [locs, wrK, rdK, List.flatMap_cons, taskK, List.nil_append] at hp ⊢; exact hp)
+    · intro p hp
+      exact h.rdr2 p (by simp only [locs, wrK, rdK, List.flatMap_cons, taskK, List.nil_append] at hp ⊢; exact hp)
+  | read cb =>
+    simp only [Call.action, callOk, Action.cb?, Action.isRead, Bool.and_eq_true, Bool.not_eq_true', Bool.true_and] at hok
+    have hfresh : cb ∉ s0.started := by simpa using hok.1
+    obtain ⟨hstart, _⟩ := coup_start (cb := cb) .read hI h hns hlast hfresh (fun _ => hok.2)
+    have hb := begin_flush (cb := cb) .read (.readStart cb .frame) hI h hns hlast hfresh (fun _ => hok.2) rfl
+    refine ⟨started m cb .read, mrun_single hstart, ?_⟩
+    have hs : (beginCall true s0 (.read cb)).submitted = s0.submitted := by
+      simp only [beginCall, doCall, Action.cb?, asyncFlush_submitted]
+    simp only [Call.action, hs, List.drop_length]
+    rw [obCall_nil']
+    exact hb
+  | readMsg cb room =>
+    simp only [Call.action, callOk, Action.cb?, Action.isRead, Bool.and_eq_true, Bool.not_eq_true', Bool.true_and] at hok
+    have hfresh : cb ∉ s0.started := by simpa using hok.1
+    obtain ⟨hstart, _⟩ := coup_start (cb := cb) .readMsg hI h hns hlast hfresh (fun _ => hok.2)
+    have hb := begin_flush (cb := cb) .readMsg (.readStart cb (.message room false)) hI h hns hlast hfresh (fun _ => hok.2) rfl
+    refine ⟨started m cb .readMsg, mrun_single hstart, ?_⟩
+    have hs : (beginCall true s0 (.readMsg cb room)).submitted = s0.submitted := by
+      simp only [beginCall, doCall, Action.cb?, asyncFlush_submitted]
+    simp only [Call.action, hs, List.drop_length]
+    rw [obCall_nil']
+    exact hb
+  | flush cb =>
+    simp only [Call.action, callOk, Action.cb?, Action.isRead, Bool.not_eq_true', Bool.false_and, Bool.not_false,
+      Bool.and_true] at hok
+    have hfresh : cb ∉ s0.started := by simpa using hok
+    obtain ⟨hstart, _⟩ := coup_start (cb := cb) .flush hI h hns hlast hfresh (fun e => by cases e)
+    have hb := begin_flush (cb := cb) .flush (.user cb) hI h hns hlast hfresh (fun e => by cases e) rfl
+    refine ⟨started m cb .flush, mrun_single hstart, ?_⟩
+    have hs : (beginCall true s0 (.flush cb)).submitted = s0.submitted := by
+      simp only [beginCall, doCall, Action.cb?, asyncFlush_submitted]
+    simp only [Call.action, hs, List.drop_length]
+    rw [obCall_nil']
+    exact hb
+  | write cb ty len =>
+    by_cases hlen : len > max
+    · have ha : (Call.write cb ty len).action max = .writeTooBig cb := by simp [Call.action, hlen]
+      rw [ha] at hok ⊢
+      simp only [callOk, Action.cb?, Action.isRead, Bool.not_eq_true', Bool.false_and, Bool.not_false, Bool.and_true] at hok
+      have hfresh : cb ∉ s0.started := by simpa using hok
+      obtain ⟨hstart, _⟩ := coup_start (cb := cb) .write hI h hns hlast hfresh (fun e => by cases e)
+      have hb := begin_refuse (cb := cb) .write .tooBig hI h hns hlast hfresh rfl (Or.inr (Or.inr rfl))
+        (fun e => by rcases e with e | e <;> cases e)
+      refine ⟨started m cb .write, mrun_single ?_, ?_⟩
+      · show Sonic.Spec.WsAsync.step m (.callWrite cb ty len) = _
+        have : ¬ len ≤ m.max := by rw [h.max]; omega
+        simp [Sonic.Spec.WsAsync.step, hstart, bind, Except.bind, pure, Except.pure, this]
+      · have hs : (beginCall true s0 (.writeTooBig cb)).submitted = s0.submitted := rfl
+        simp only [hs, List.drop_length]
+        rw [obCall_nil']
+        exact hb
+    · have ha : (Call.write cb ty len).action max = .write cb (frameSize len) := by simp [Call.action, hlen]
+      rw [ha] at hok ⊢
+      simp only [callOk, Action.cb?, Action.isRead, Bool.not_eq_true', Bool.false_and, Bool.not_false, Bool.and_true] at hok
+      have hfresh : cb ∉ s0.started := by simpa using hok
+      obtain ⟨hstart, _⟩ := coup_start (cb := cb) .write hI h hns hlast hfresh (fun e => by cases e)
+      by_cases hws : s0.ws = .active
+      · have hb := begin_submit (cb := cb) .write s0.ws (subExact ⟨.app cb, frameSize len⟩ true ty (pattern cb len)) hI h hns hlast
+          hfresh rfl (Or.inl rfl) (matches_exact ..)
+        refine ⟨{ (started m cb .write) with expect := m.expect ++ [.exact true ty (pattern cb len)] }, mrun_single ?_, ?_⟩
+        · show Sonic.Spec.WsAsync.step m (.callWrite cb ty len) = _
+          have h1 : len ≤ m.max := by rw [h.max]; omega
+          have h2 : m.last = .active := by rw [hlast, hws]; rfl
+          simp [Sonic.Spec.WsAsync.step, hstart, bind, Except.bind, pure, Except.pure, h1, h2, Sonic.Spec.WsAsync.S.push, started]
+          rfl
+        · have hbc : beginCall true s0 (.write cb (frameSize len)) =
+              asyncFlush true (prepare { s0 with stack := .ret :: s0.stack, started := s0.started ++ [cb], ws := s0.ws } ⟨.app cb, frameSize len⟩) (.user cb) := by
+            simp [beginCall, doCall, Action.cb?, hws]
+          have hs : (beginCall true s0 (.write cb (frameSize len))).submitted = s0.submitted ++ [⟨.app cb, frameSize len⟩] := by
+            rw [hbc, asyncFlush_submitted]; rfl
+          rw [hs, drop_self_append, hbc]
+          exact hb
+      · have hb := begin_refuse (cb := cb) .write .cancelled hI h hns hlast hfresh rfl (Or.inl rfl) (fun _ => hws)
+        refine ⟨started m cb .write, mrun_single ?_, ?_⟩
+        · show Sonic.Spec.WsAsync.step m (.callWrite cb ty len) = _
+          have h2 : ¬ m.last = .active := by rw [hlast]; exact fun e => hws (stOf_active.1 e)
+          simp [Sonic.Spec.WsAsync.step, hstart, bind, Except.bind, pure, Except.pure, h2]
+        · have hbc : beginCall true s0 (.write cb (frameSize len)) =
+              push { s0 with stack := .ret :: s0.stack, started := s0.started ++ [cb] } [.invoke cb .cancelled false] := by
+            simp [beginCall, doCall, Action.cb?, hws]
+          have hs : (beginCall true s0 (.write cb (frameSize len))).submitted = s0.submitted := by rw [hbc]; rfl
+          rw [hs, List.drop_length, obCall_nil', hbc]
+          exact hb
+  | writeFrame cb fin op len =>
+    simp only [Call.action, callOk, Action.cb?, Action.isRead, Bool.not_eq_true', Bool.false_and, Bool.not_false,
+      Bool.and_true] at hok
+    have hfresh : cb ∉ s0.started := by simpa using hok
+    obtain ⟨hstart, _⟩ := coup_start (cb := cb) .writeFrame hI h hns hlast hfresh (fun e => by cases e)
+    by_cases hws : s0.ws = .active
+    · have hb := begin_submit (cb := cb) .writeFrame s0.ws (subExact ⟨.app cb, frameSize len⟩ fin op (pattern cb len)) hI h hns
+        hlast hfresh rfl (Or.inl rfl) (matches_exact ..)
+      refine ⟨{ (started m cb .writeFrame) with expect := m.expect ++ [.exact fin op (pattern cb len)] }, mrun_single ?_, ?_⟩
+      · show Sonic.Spec.WsAsync.step m (.callWriteFrame cb fin op len) = _
+        have h2 : m.last = .active := by rw [hlast, hws]; rfl
+        simp [Sonic.Spec.WsAsync.step, hstart, bind, Except.bind, pure, Except.pure, h2, Sonic.Spec.WsAsync.S.push, started]
+        rfl
+      · have hbc : beginCall true s0 (.writeFrame cb (frameSize len)) =
+            asyncFlush true (prepare { s0 with stack := .ret :: s0.stack, started := s0.started ++ [cb], ws := s0.ws } ⟨.app cb, frameSize len⟩) (.user cb) := by
+          simp [beginCall, doCall, Action.cb?, hws]
+        have hs : (beginCall true s0 (.writeFrame cb (frameSize len))).submitted = s0.submitted ++ [⟨.app cb, frameSize len⟩] := by
+          rw [hbc, asyncFlush_submitted]; rfl
+        simp only [Call.action]
+        rw [hs, drop_self_append, hbc]
+        exact hb
+    · have hb := begin_refuse (cb := cb) .writeFrame .cancelled hI h hns hlast hfresh rfl (Or.inl rfl) (fun _ => hws)
+      refine ⟨started m cb .writeFrame, mrun_single ?_, ?_⟩
+      · show Sonic.Spec.WsAsync.step m (.callWriteFrame cb fin op len) = _
+        have h2 : ¬ m.last = .active := by rw [hlast]; exact fun e => hws (stOf_active.1 e)
+        simp [Sonic.Spec.WsAsync.step, hstart, bind, Except.bind, pure, Except.pure, h2]
+      · have hbc : beginCall true s0 (.writeFrame cb (frameSize len)) =
+            push { s0 with stack := .ret :: s0.stack, started := s0.started ++ [cb] } [.invoke cb .cancelled false] := by
+          simp [beginCall, doCall, Action.cb?, hws]
+        have hs : (beginCall true s0 (.writeFrame cb (frameSize len))).submitted = s0.submitted := by rw [hbc]; rfl
+        simp only [Call.action]
+        rw [hs, List.drop_length, obCall_nil', hbc]
+        exact hb
+  | close cb code reason =>
+    simp only [Call.action, callOk, Action.cb?, Action.isRead, Bool.not_eq_true', Bool.false_and, Bool.not_false,
+      Bool.and_true] at hok
+    have hfresh : cb ∉ s0.started := by simpa using hok
+    obtain ⟨hstart, _⟩ := coup_start (cb := cb) .close hI h hns hlast hfresh (fun e => by cases e)
+    by_cases hws : s0.ws = .active
+    · have hb := begin_submit (cb := cb) .close .closedByUs
+        (subExact ⟨.closeApp cb, frameSize (2 + reason.length)⟩ true 8 (u16 code ++ reason)) hI h hns
+        hlast hfresh rfl (Or.inr ⟨hws, rfl⟩) (matches_exact ..)
+      refine ⟨{ (started m cb .close) with expect := m.expect ++ [.exact true 8 (u16 code ++ reason)] }, mrun_single ?_, ?_⟩
+      · show Sonic.Spec.WsAsync.step m (.callClose cb code reason) = _
+        have h2 : m.last = .active := by rw [hlast, hws]; rfl
+        simp [Sonic.Spec.WsAsync.step, hstart, bind, Except.bind, pure, Except.pure, h2, Sonic.Spec.WsAsync.S.push, started]
+        rfl
+      · have hbc : beginCall true s0 (.close cb (frameSize (2 + reason.length))) =
+            asyncFlush true (prepare { s0 with stack := .ret :: s0.stack, started := s0.started ++ [cb], ws := .closedByUs } ⟨.closeApp cb, frameSize (2 + reason.length)⟩) (.user cb) := by
+          simp [beginCall, doCall, Action.cb?, asyncClose, hws]
+        have hs : (beginCall true s0 (.close cb (frameSize (2 + reason.length)))).submitted =
+            s0.submitted ++ [⟨.closeApp cb, frameSize (2 + reason.length)⟩] := by
+          rw [hbc, asyncFlush_submitted]; rfl
+        simp only [Call.action]
+        rw [hs, drop_self_append, hbc]
+        exact hb
+    · have hr : ∃ r, (r = Res.cancelled ∨ r = Res.eof) ∧ beginCall true s0 (.close cb (frameSize (2 + reason.length))) =
+          push { s0 with stack := .ret :: s0.stack, started := s0.started ++ [cb] } [.invoke cb r false] := by
+        cases hw : s0.ws with
+        | active => exact absurd hw hws
+        | closedByUs => exact ⟨.cancelled, Or.inl rfl, by simp [beginCall, doCall, Action.cb?, asyncClose, hw]⟩
+        | closedByPeer => exact ⟨.eof, Or.inr rfl, by simp [beginCall, doCall, Action.cb?, asyncClose, hw]⟩
+        | closeAcked => exact ⟨.eof, Or.inr rfl, by simp [beginCall, doCall, Action.cb?, asyncClose, hw]⟩
+        | terminated => exact ⟨.eof, Or.inr rfl, by simp [beginCall, doCall, Action.cb?, asyncClose, hw]⟩
+      obtain ⟨r, hr1, hbc⟩ := hr
+      have hb := begin_refuse (cb := cb) .close r hI h hns hlast hfresh rfl
+        (by rcases hr1 with e | e <;> rw [e] <;> simp) (fun _ => hws)
+      refine ⟨started m cb .close, mrun_single ?_, ?_⟩
+      · show Sonic.Spec.WsAsync.step m (.callClose cb code reason) = _
+        have h2 : ¬ m.last = .active := by rw [hlast]; exact fun e => hws (stOf_active.1 e)
+        simp [Sonic.Spec.WsAsync.step, hstart, bind, Except.bind, pure, Except.pure, h2]
+      · have hs : (beginCall true s0 (.close cb (frameSize (2 + reason.length)))).submitted = s0.submitted := by rw [hbc]; rfl
+        simp only [Call.action]
+        rw [hs, List.drop_length, obCall_nil', hbc]
+        exact hb
 
 end Sonic.Model.WsAsyncObs
